@@ -91,6 +91,10 @@ type Exec struct {
 	oblCount map[string]int
 	storedRefs []storedRef // objects whose fields were written (for type invariants)
 	frozenPrefix map[string][]string
+	keyLog       map[string]bool // when set, heap keys read are recorded (dependency of an invariant)
+	ownWritten   map[string]bool // heap keys this function wrote on objects that existed before it ran
+	interfering  bool     // modelling interference at a lock acquisition (not a write of this function)
+	calleeHavoc  int      // >0 while the effects of a callee are being forgotten
 	stableCells  []string // write-once captured local variables (see writeOnceCaptured)
 	ownWrites  int         // writes of the function under verification to objects that existed before it ran
 	opts     *Options
@@ -251,6 +255,9 @@ func (ex *Exec) heapSort(key, sort string) {
 
 func (ex *Exec) heapGet(st *State, key, sort string) string {
 	ex.heapSort(key, sort)
+	if ex.keyLog != nil {
+		ex.keyLog[key] = true
+	}
 	if t, ok := st.heap[key]; ok {
 		return t
 	}
@@ -291,9 +298,12 @@ func (ex *Exec) frozenKey(k string) bool {
 	}
 	for pre, ctors := range ex.frozenPrefix {
 		if k == pre || strings.HasPrefix(k, pre+".") {
-			for _, c := range ctors {
-				if c == ex.rootKey || strings.HasPrefix(ex.rootKey, c+"$") {
-					return false
+			if ex.calleeHavoc == 0 {
+				// the constructor's own (loop) writes
+				for _, c := range ctors {
+					if c == ex.rootKey || strings.HasPrefix(ex.rootKey, c+"$") {
+						return false
+					}
 				}
 			}
 			return true
